@@ -665,3 +665,137 @@ def read_batch(S):
     S.oblige("O6.release_of_the_batch_frees_its_own_region_exactly_once", (len(rel) == 1 and rel[0][1] is res[0][1]) if from_shm else not rel, kind="trace")
     if from_shm:
         S.canary("O6.canary.batches_never_come_from_the_segment", T(False))
+
+
+# ------------------------------------------------------------------------------------------
+# O7  format agreement (transparency half that *can* be put under contract): the writer and the reader of a region
+# must take the same branch of the same predicate.  A region holds either a complete IPC stream (schema + batch + EOS)
+# or the schema-less form (dictionary/batch messages only); _deserialize_from_shm decides which one to expect from
+# _has_dictionary_columns(schema) alone, so allocate_and_write may put the schema-less form into a region it hands
+# out iff that predicate holds for the batch's schema - on every path, including the overflow fallback.
+# ------------------------------------------------------------------------------------------
+
+
+def _load_c28():
+    import importlib.util
+    import os
+    import sys
+
+    from pyvc import api
+
+    api.begin_registry()
+    try:
+        spec = importlib.util.spec_from_file_location("contracts_C28_as_library", os.path.join(os.path.dirname(os.path.abspath(__file__)), "C28.py"))
+        mod = importlib.util.module_from_spec(spec)
+        sys.modules[spec.name] = mod
+        spec.loader.exec_module(mod)
+    finally:
+        api.end_registry()
+    return mod
+
+
+def _round_trip_corpus():
+    import pyarrow as pa
+
+    big = "x" * 3000
+    dict_vals = pa.array([f"{big}{i}" for i in range(40)])  # a dictionary far larger than the estimate's slack
+    idx = pa.array([i % 40 for i in range(200)], pa.int32())
+    d = pa.DictionaryArray.from_arrays(idx, dict_vals)
+    offsets = pa.array(list(range(0, 201, 2)), pa.int32())
+    yield "plain", pa.RecordBatch.from_pydict({"x": list(range(1000)), "s": ["ab"] * 1000})
+    yield "top-level dictionary", pa.RecordBatch.from_arrays([d], names=["d"])
+    yield "dictionary + plain", pa.RecordBatch.from_arrays([d, pa.array(range(200))], names=["d", "x"])
+    yield "list<dictionary>", pa.RecordBatch.from_arrays([pa.ListArray.from_arrays(offsets, d)], names=["l"])
+    yield "struct<dictionary>", pa.RecordBatch.from_arrays([pa.StructArray.from_arrays([d], names=["d"])], names=["st"])
+    yield "zero columns", pa.RecordBatch.from_arrays([], schema=pa.schema([]))
+    yield "zero rows", pa.RecordBatch.from_pydict({"x": pa.array([], pa.int64())})
+    yield "wide schema", pa.RecordBatch.from_pydict({f"c{i}": [i] for i in range(300)})
+
+
+def search_format(ob, seed=0):
+    """Bounded native round trip used when the proof is lost: allocate_and_write -> read_buffer -> _deserialize_from_shm on
+    a real segment for plain / dictionary / nested-dictionary / zero-column / wide batches; a batch that is not written
+    (None: inline transfer) is fine, a written one must come back equal."""
+    import contextlib
+
+    from vgi_rpc.shm import ShmSegment, _deserialize_from_shm
+
+    for label, batch in _round_trip_corpus():
+        seg = ShmSegment.create(8 << 20)
+        try:
+            try:
+                placed = seg.allocate_and_write(batch)
+            except Exception as e:  # noqa: BLE001
+                return {"batch": label}, ReplayResult(True, f"{label}: allocate_and_write raised {type(e).__name__}: {e}")
+            if placed is None:
+                continue
+            try:
+                back = _deserialize_from_shm(seg.read_buffer(*placed), batch.schema)
+            except Exception as e:  # noqa: BLE001
+                return {"batch": label}, ReplayResult(True, f"{label}: region written by allocate_and_write cannot be read back: {type(e).__name__}: {e}")
+            if not back.equals(batch):
+                return {"batch": label}, ReplayResult(True, f"{label}: batch read back from the region differs from the one written")
+        finally:
+            with contextlib.suppress(Exception):
+                seg.close()
+            with contextlib.suppress(Exception):
+                seg.unlink()
+    return None
+
+
+def replay_format(inputs, ob):
+    found = search_format(ob)
+    return found[1] if found else ReplayResult(False, "every corpus batch written to a region reads back equal")
+
+
+@unit("C29.O7a allocate_and_write puts the schema-less form into a region it hands out iff _has_dictionary_columns(schema)", targets=["vgi_rpc/shm.py::ShmSegment.allocate_and_write"], replay=replay_format, search=search_format, min_obligations=4)
+def writer_format(S):
+    K = _load_c28()
+    R = K.run_allocate_and_write(S)
+    out, is_dict = R["out"], R["is_dict"]
+    if not out.returned or out.value is None:
+        return  # nothing handed out: the caller transfers inline (C29.O5)
+    off = out.value[0]
+    # which form ended up in the region that is handed out: a complete stream written through a sink that starts at the
+    # returned offset, or the schema-less serialization copied to the returned offset
+    full_here = any(e[1].fields["start"] is off for e in S.events("full_stream_written"))
+    schemaless_here = bool(S.events("schemaless_serialized")) and any(e[1] is off for e in S.events("bufwrite"))
+    S.oblige("O7.region_holds_the_form_the_reader_will_assume", (schemaless_here and not full_here) if is_dict else (full_here and not schemaless_here), kind="trace", witness=("dictionary schema" if is_dict else "plain schema") + (" after overflow" if R["overflow"] else ""))
+    S.canary("O7.canary.never_hands_out_a_region", False)
+
+
+@unit("C29.O7b _deserialize_from_shm expects the schema-less form iff _has_dictionary_columns(schema)", targets=["vgi_rpc/shm.py::_deserialize_from_shm"], replay=replay_format, search=search_format, min_obligations=3)
+def reader_format(S):
+    import pyarrow as pa
+    import pyarrow.ipc as ipc
+
+    import vgi_rpc.shm as shm_
+
+    is_dict = S.choose(2) == 1
+    S.handlers["_has_dictionary_columns"] = lambda S, schema: is_dict
+    buf = SObj(None, kind="Buffer")
+    schema = SObj(None, kind="Schema")
+    S.handlers["Buffer.to_pybytes"] = lambda S, b: S.event("region_bytes_taken") or S.bytes("region")
+    S.handlers[pa.BufferOutputStream] = lambda S: SObj(None, kind="BOS")
+    S.handlers["new_ipc_stream"] = lambda S, sink, sch: (S.event("schema_message_built", sch), SObj(None, kind="Writer"))[1]
+    S.handlers["Writer.close"] = lambda S, w: None
+    S.handlers["BOS.getvalue"] = lambda S, b: SObj(None, kind="Buffer2")
+    S.handlers["Buffer2.to_pybytes"] = lambda S, b: S.bytes("schema_stream")
+    S.handlers[pa.py_buffer] = lambda S, data: SObj(None, kind="Rebuilt", data=data)
+
+    def open_stream(S, src):
+        S.event("opened", src)
+        return SObj(None, kind="IpcReader")
+
+    S.handlers[ipc.open_stream] = open_stream
+    S.handlers["IpcReader.read_next_batch"] = lambda S, r: SObj(None, kind="RecordBatch")
+    out = S.outcome(shm_._deserialize_from_shm, buf, schema)
+    S.oblige("O7.reader_returns", out.returned, kind="raises")
+    opened = S.events("opened")
+    S.oblige("O7.reader_opens_one_stream", len(opened) == 1, kind="trace")
+    if len(opened) == 1:
+        raw = opened[0][1] is buf
+        S.oblige("O7.region_read_as_a_complete_stream_iff_the_schema_has_no_dictionary_column", raw == (not is_dict), kind="trace")
+        if is_dict:
+            S.oblige("O7.schema_message_rebuilt_from_the_pointers_schema", any(e[1] is schema for e in S.events("schema_message_built")), kind="trace")
+    S.canary("O7.canary.always_reads_raw", SBool(z3.BoolVal(bool(opened) and opened[0][1] is buf)))
